@@ -8,6 +8,13 @@ The statement is a two-run (relational) claim, so the oracle is a two-world comp
   world B   build the same tree again, apply the same H in the same way, then ask the same O1..Ok but
             with ``CanvasCache.clear()`` immediately before every Oi ("the cache emptied first").
 
+Observation below the root ("render-below" in a failure's `observation`).  Every subtree is a widget tree, so the
+statement also holds at the descendants: at the very end of world A, every finalized canvas below the handed-out root
+canvases that is still alive, belongs to a widget the grammar names (subject_widgets) and is handed out AGAIN by that
+widget's render(size, focus) right now (cache hit, the same object) is compared with the same call after
+CanvasCache.clear().  This sees a cached child canvas that a parent's render polluted (e.g. through a shard list shared
+by CompositeCanvas(canv)) in the state it is in, before a change of context makes it visible at the root.
+
 Failures are minimised by step removal (each candidate re-run on the real code) and grouped by the
 mutators of the minimal history ("failure_groups" / "failure_group_examples" in each check result).
 
@@ -21,6 +28,15 @@ Steps of a history:  render(size_i, focus) / rows(size_i) at the root, every pub
 widget in the tree (by path), keypress / mouse_event delivered at the root the way MainLoop does,
 and garbage collection (drop the held canvases except the latest / all of them, then gc.collect()).
 
+Garbage-collection family ("/gc-histories" checks).  The statement quantifies over "garbage collection of unreferenced
+canvases" as a history step.  Whether a collection is visible depends on what the weak-reference callbacks
+(CanvasCache.cleanup) remove, and that shows only in histories of a particular shape, longer than the exhaustive bound
+above: render A (canvas held, as a Screen holds the last one) -> [edit a descendant] -> render B under ANOTHER cache key
+for the root (focus flipped / other width / a vertical resize: same columns, one more row) which leaves the cache key of
+descendants unchanged (flow children of a box, ignore_focus widgets, children that are not in focus) -> drop held canvases
+and gc.collect() -> edit a descendant -> observe render B, render A (and rows).  These 4- and 5-step histories are
+enumerated exhaustively over (tree, key pair A->B, which canvases are dropped, edit) — see gc_family().
+
 Readings of the statement fixed here:
  * "public mutators" = methods and property setters.  Assigning a plain public attribute that has no
    setter (Padding.left, Filler.top, Divider.div_char, BoxAdapter.height, GridFlow.h_sep, Overlay.top_w,
@@ -32,7 +48,11 @@ Readings of the statement fixed here:
  * A history after which world A's cache is empty and no canvas is held is *trivial*: both worlds then
    run identical code.  It is counted as an evaluation but world B is not run for it.
  * Handed-out canvases: every canvas returned by a root render in world A is snapshotted
-   (content, cursor, size) when handed out and compared at the end of the run.
+   (content, cursor, size) when handed out and compared at the end of the run.  So is every finalized
+   canvas below it in the canvas tree (the canvases the descendants' renders handed out to their parents,
+   the ones the cache hands out again): snapshotted when the root render that first shows them returns,
+   tracked through weak references only (the harness must not prolong their life: collections are part of
+   the histories), compared at the end if still alive.
 """
 from __future__ import annotations
 
@@ -42,6 +62,7 @@ import multiprocessing
 import os
 import time
 import warnings
+import weakref
 
 import urwid
 from urwid import str_util
@@ -53,9 +74,9 @@ from bounded.common import Check, rng
 ID = "C06"
 
 RULES = {
-    "cached-equals-fresh": "for every tree x history: each final render(size, focus) with the cache as the history left it equals, in content(), cursor, cols and rows, the same render in a second run of the same history with CanvasCache.clear() called first (exception in one run only = failure)",
+    "cached-equals-fresh": "for every tree x history: each final render(size, focus) with the cache as the history left it equals, in content(), cursor, cols and rows, the same render in a second run of the same history with CanvasCache.clear() called first (exception in one run only = failure); and at the end every descendant canvas that the cache still hands out for its (widget, size, focus) equals that widget's render with the cache emptied first",
     "rows-cached-equals-fresh": "for every flow-root tree x history: rows(size, focus) answered with the cache as-is equals rows() after CanvasCache.clear()",
-    "handed-out-unchanged": "every canvas returned by a root render during the history and the observations still has the content(), cursor, cols, rows it had when handed out",
+    "handed-out-unchanged": "every canvas returned by a root render during the history and the observations, and every finalized canvas below it in its canvas tree that is still alive, still has the content(), cursor, cols, rows it had when handed out",
     "finalized-refuse-mutation": "every canvas handed out by a widget render (root and all child canvases carrying widget_info) refuses each CompositeCanvas/Canvas mutator with CanvasError and is unchanged afterwards",
 }
 
@@ -803,7 +824,9 @@ def paths(spec, pre=()):
 
 
 def sizes_for(typ):
-    return [(9,), (14,)] if typ == "flow" else [(10, 6), (15, 9)]
+    # box roots, index 2: a vertical resize of size 0 (same columns, one more row): the root and every box descendant get a
+    # new cache key while flow descendants keep theirs. Only the garbage-collection family uses it.
+    return [(9,), (14,)] if typ == "flow" else [(10, 6), (15, 9), (10, 7)]
 
 
 def alphabet(spec, tier):
@@ -863,6 +886,22 @@ def snap(canv):
         return ("raised", "content():" + type(e).__name__, str(e)[:120])
 
 
+def subject_widgets(root_node):
+    """{id(widget)} of the widgets the tree grammar names below the root: the node widgets and their named parts (nd.x).
+    These are the widgets the histories edit; their fixed siblings and the widgets a compound widget builds internally
+    are left to the observation at the root."""
+    out, todo = set(), list(root_node.kids)
+    for v in root_node.x.values():
+        if isinstance(v, urwid.Widget) and v is not root_node.w:
+            out.add(id(v))
+    while todo:
+        nd = todo.pop()
+        out.add(id(nd.w))
+        out.update(id(v) for v in nd.x.values() if isinstance(v, urwid.Widget))
+        todo.extend(nd.kids)
+    return out
+
+
 class World:
     def __init__(self, spec):
         CanvasCache.clear()
@@ -871,6 +910,7 @@ class World:
         self.root = build(spec)
         self.sizes = sizes_for(_typ_of(spec))
         self.held = []  # [(canvas, snapshot)]
+        self.below = {}  # id(canvas) -> (weakref to a finalized canvas below a handed-out root canvas, snapshot)
         self.step_exc = []
 
     def step(self, st, take_snap=True):
@@ -879,12 +919,16 @@ class World:
         if kindn == "render":
             c = w.render(self.sizes[st[1]], focus=st[2])
             self.held.append((c, snap(c) if take_snap else None))
+            if take_snap:
+                self.snap_below(c)
             return c
         if kindn == "rows":
             return w.rows(self.sizes[st[1]], st[2])
         if kindn == "gc":
             if st[1] == "keep_last":
                 del self.held[:-1]
+            elif st[1] == "keep_first":
+                del self.held[1:]
             else:
                 del self.held[:]
             gc.collect()
@@ -902,6 +946,64 @@ class World:
             w.mouse_event(self.sizes[st[1]], "mouse press", button, col, row, focus=True)
             return None
         raise ValueError(st)
+
+    def snap_below(self, top):
+        seen = {}
+        _walk_canvases(top, seen)
+        for i, d in seen.items():
+            if d is top or not d.widget_info:
+                continue
+            known = self.below.get(i)
+            if known is None or known[0]() is not d:
+                self.below[i] = (weakref.ref(d), snap(d))
+
+    def changed_below(self):
+        """-> None | detail of the first still-alive finalized descendant canvas that differs from its snapshot"""
+        for wr, s0 in self.below.values():
+            d = wr()
+            if d is not None:
+                s1 = snap(d)
+                if s1 != s0:
+                    return {"held_index": None, "canvas_of": type(d.widget_info[0]).__name__, "size": list(d.widget_info[1]), "focus": bool(d.widget_info[2]), "at_hand_out": _fmt(s0), "now": _fmt(s1)}
+        return None
+
+    def observe_below(self):
+        """The statement at the descendants (every subtree is a widget tree): for each finalized canvas below the handed-out
+        root canvases that is still alive and that its widget's render(size, focus) hands out again right now (a cache hit:
+        the very same object), that canvas must equal what the same call renders with the cache emptied first.  Run at the
+        very end of world A (it empties the cache); all hits are determined before the first emptying.
+        -> [(("render-below", widget class, size, focus), cached snapshot, fresh snapshot)]"""
+        hits = []
+        in_tree = subject_widgets(self.root)
+        for wr, _s0 in list(self.below.values()):
+            d = wr()
+            if d is None:
+                continue
+            w, size, focus = d.widget_info
+            if id(w) not in in_tree:
+                # Declared reduction: only the widgets the grammar names (see subject_widgets). In particular NOT
+                # render-internal temporaries such as the Text that ProgressBar.render builds, renders and then repaints
+                # through private attributes: nobody else can ever ask that widget to render again, so the statement says
+                # nothing about it (a first version asked every widget found in widget_info and reported ProgressBar: a
+                # false alarm of the harness).
+                continue
+            try:
+                got = w.render(size, focus=focus)
+            except Exception:  # noqa: BLE001, S112 - a miss that raises: nothing was handed out by the cache
+                continue
+            if got is d:
+                hits.append(d)
+        out = []
+        for d in hits:
+            w, size, focus = d.widget_info
+            a = snap(d)
+            CanvasCache.clear()
+            try:
+                b = snap(w.render(size, focus=focus))
+            except Exception as e:  # noqa: BLE001
+                b = ("raised", type(e).__name__, str(e)[:120])
+            out.append((("render-below", type(w).__name__, list(size), bool(focus)), a, b))
+        return out
 
     def run_history(self, hist, take_snap=True):
         for st in hist:
@@ -924,6 +1026,7 @@ class World:
 
     def close(self):
         self.held = []
+        self.below = {}
         self.root = None
         CanvasCache.clear()
 
@@ -943,9 +1046,11 @@ def _fmt(o):
     return {"cols": cols, "rows": rows, "cursor": list(cursor) if cursor else None, "text": ["".join(seg[1] for seg in ln) for ln in lines], "attr": [[seg[0] for seg in ln] for ln in lines]}
 
 
-def evaluate(spec, hist, tier="thorough"):
-    """Run one history in both worlds.  Returns dict(trivial, render=[(ob, a, b)], rows=[...], handed_bad, step_exc)."""
-    obs = observations(spec, tier)
+def evaluate(spec, hist, tier="thorough", obs=None):
+    """Run one history in both worlds.  Returns dict(trivial, render=[(ob, a, b)], rows=[...], handed_bad, step_exc).
+    obs: the observations asked at the end (default: observations(spec, tier))."""
+    gc_family_history = obs is not None and len(hist) <= 5
+    obs = observations(spec, tier) if obs is None else list(obs)
     A = World(spec)
     try:
         A.run_history(hist)
@@ -959,6 +1064,11 @@ def evaluate(spec, hist, tier="thorough"):
             if s1 != s0:
                 handed_bad = {"held_index": i, "at_hand_out": _fmt(s0), "now": _fmt(s1)}
                 break
+        if handed_bad is None:
+            handed_bad = A.changed_below()
+        # (declared reduction: not after the 4/5-step histories of the garbage-collection family, which are about what a
+        # collection removes, observed at the root)
+        below_res = [] if gc_family_history else A.observe_below()
         step_exc = A.step_exc
     finally:
         A.close()
@@ -976,6 +1086,7 @@ def evaluate(spec, hist, tier="thorough"):
     out = {"trivial": False, "step_exc": step_exc, "render": [], "rows": [], "handed_bad": handed_bad}
     for ob, a, b in zip(obs, a_res, b_res):
         out["render" if ob[0] == "render" else "rows"].append((ob, a, b))
+    out["render"].extend(below_res)
     return out
 
 
@@ -989,8 +1100,8 @@ def _first_diff(triples):
     return None
 
 
-def fails(spec, hist, clause, tier="thorough"):
-    r = evaluate(spec, hist, tier)
+def fails(spec, hist, clause, tier="thorough", obs=None):
+    r = evaluate(spec, hist, tier, obs)
     if r["trivial"]:
         return False
     if clause == "handed-out-unchanged":
@@ -998,7 +1109,7 @@ def fails(spec, hist, clause, tier="thorough"):
     return _first_diff(r["render" if clause == "cached-equals-fresh" else "rows"]) is not None
 
 
-def shrink(spec, hist, clause, tier="thorough"):
+def shrink(spec, hist, clause, tier="thorough", obs=None):
     """Greedy one-step-removal minimisation (each candidate is re-run against the real code)."""
     hist = list(hist)
     changed = True
@@ -1006,7 +1117,7 @@ def shrink(spec, hist, clause, tier="thorough"):
         changed = False
         for i in range(len(hist)):
             cand = hist[:i] + hist[i + 1 :]
-            if fails(spec, cand, clause, tier):
+            if fails(spec, cand, clause, tier, obs):
                 hist = cand
                 changed = True
                 break
@@ -1030,8 +1141,10 @@ def signature(spec, hist):
     return "+".join(sig) if sig else "renders-only:" + spec_str(spec)
 
 
-def _detail(spec, hist, clause, r, minimal=None, tier="thorough"):
+def _detail(spec, hist, clause, r, minimal=None, tier="thorough", obs=None):
     d = {"obs_tier": tier, "tree": spec, "history": [list(map(_j, st)) for st in hist], "sizes": [list(s) for s in sizes_for(_typ_of(spec))], "clause": clause}
+    if obs is not None:
+        d["observations"] = [list(map(_j, ob)) for ob in obs]
     if minimal is not None:
         d["minimal_history"] = [list(map(_j, st)) for st in minimal]
         d["signature"] = signature(spec, minimal)
@@ -1172,6 +1285,10 @@ def select_trees(tier, seed):
             c = by_mid.get(mid, [])
             for t in r.sample(c, min(1, len(c))):
                 plan.append((t, "quick", 2, "full"))
+                plan.append((t, "quick", 5, "gc"))
+        # the garbage-collection family on every root+leaf tree (the seeded longer histories with several collections run in
+        # the thorough tier only)
+        plan += [(t, "quick", 5, "gc") for t in d1]
         return plan
     d3 = trees_of_depth(3)
     plan += [(t, "thorough", 3, "full") for t in d0]
@@ -1197,6 +1314,14 @@ def select_trees(tier, seed):
     for t in r.sample(d3, min(len(d3), 100)):
         plan.append((t, "quick", 2, "full"))
         plan.append((t, "thorough", 4, ("sample", 100)))
+    # the garbage-collection family: the thorough family on leaves alone and root+leaf trees, the quick one on the deeper trees
+    plan += [(t, "thorough", 5, "gc") for t in d0 + d1]
+    plan += [(t, "thorough", 8, ("gcsample", 80)) for t in d1]
+    seen_gc = set()
+    for t, _a, _l, mode in list(plan):
+        if mode == "full" and len(spec_str(t).split("(")) > 2 and spec_str(t) not in seen_gc:
+            seen_gc.add(spec_str(t))
+            plan.append((t, "quick", 5, "gc"))
     return plan
 
 
@@ -1214,6 +1339,62 @@ def admissible(h):
     if any(h[i] == h[i + 1] and h[i][0] in ("render", "rows", "gc") for i in range(L - 1)):
         return False
     return True
+
+
+def gc_alphabet(spec, tier):
+    """Reduced alphabet of the seeded garbage-collection histories: renders under the root cache keys of gc_family
+    (incl. the vertical resize for box roots), the three ways of dropping held canvases + gc.collect(), the mutators of
+    the non-root nodes (thorough: of every node), keys and mouse."""
+    typ = _typ_of(spec)
+    renders = [("render", 0, True), ("render", 0, False), ("render", 1, True)] + ([("render", 2, True)] if typ == "box" else [])
+    drops = [("gc", "keep_last"), ("gc", "keep_first"), ("gc", "drop_all")]
+    edits = [a for a in alphabet(spec, tier) if (a[0] == "mut" and (a[1] or tier != "quick")) or a[0] in ("key", "mouse")]
+    return renders, drops, edits
+
+
+def gc_sampled(spec, tier, length, n, seed):
+    """n seeded histories of `length` steps. Shape: render A, [edit], render B (B != A), [edit or render], drop+gc, edit, then
+    free steps (renders / drops / edits with probabilities 3:2:3, no immediate repetition of a render or drop) up to the
+    length: a collection with more than one root canvas alive, followed by an edit, then further renders, collections and
+    edits in any order."""
+    renders, drops, edits = gc_alphabet(spec, tier)
+    if not edits:
+        return
+    s = 0
+    for ch in spec_str(spec):
+        s = (s * 131 + ord(ch)) % 2147483647
+    r = rng(seed * 11 + s + 5)
+    pick = lambda pool: pool[r.randrange(len(pool))]  # noqa: E731
+    seen = set()
+    for _ in range(n):
+        for _try in range(30):
+            h = [pick(renders)]
+            if r.random() < 0.6:
+                h.append(pick(edits))
+            h.append(pick([x for x in renders if x != h[0]]))
+            if r.random() < 0.3:
+                h.append(pick(edits + [x for x in renders if x != h[-1]]))
+            h.append(pick(drops))
+            h.append(pick(edits))
+            while len(h) < length:
+                x = r.randrange(8)
+                st = pick(renders if x < 3 else drops if x < 5 else edits)
+                if st == h[-1] and st[0] in ("render", "gc"):
+                    continue
+                h.append(st)
+            key = repr(h)
+            if key not in seen:
+                seen.add(key)
+                yield tuple(h)
+                break
+
+
+def gc_observations(spec, tier):
+    """Observations of the seeded garbage-collection histories: the default ones plus the vertical-resize render."""
+    obs = observations(spec, tier)
+    if _typ_of(spec) == "box":
+        obs = [*obs, ("render", 2, True)]
+    return obs
 
 
 def histories(spec, alpha_tier, max_len, mode, seed):
@@ -1244,6 +1425,50 @@ def histories(spec, alpha_tier, max_len, mode, seed):
                     break
 
 
+def gc_family(spec, tier):
+    """The garbage-collection family (see the module docstring): yields (history, observations).
+
+        [render A, render B, drop+gc, edit]            (4 steps)   edit: every mutator of a non-root node, keys, mouse
+        [render A, edit1, render B, drop+gc, edit2]    (5 steps)   edit1: every mutator of a non-root node; edit2 = edit1 again
+                                                                   (its next value)
+
+    A -> B (size index, focus), quick: (0,T)->(0,F), (0,F)->(0,T) (focus flip: same size), (0,T)->(1,T) (other width),
+    box roots also (0,T)->(2,T) (vertical resize, see sizes_for); drop = all held canvases but the latest.
+    thorough adds the reverse pairs, (1,T)->(1,F), (0,F)->(1,T) / (0,F)->(2,F), (2,T)->(1,T); drop in {all but the latest,
+    all but the first, all}; the mutators of the root as edits; edit2 also = the first mutator of edit1's node.
+    Observed at the end: render B, render A, and rows at B for flow roots."""
+    typ = _typ_of(spec)
+    quick = tier == "quick"
+    T, F = True, False
+    pairs = [((0, T), (0, F)), ((0, F), (0, T)), ((0, T), (1, T))]
+    if typ == "box":
+        pairs.append(((0, T), (2, T)))
+    if not quick:
+        pairs += [((1, T), (0, T)), ((1, T), (1, F)), ((0, F), (1, T))]
+        if typ == "box":
+            pairs += [((2, T), (0, T)), ((0, F), (2, F)), ((2, T), (1, T))]
+    drops = ["keep_last"] if quick else ["keep_last", "keep_first", "drop_all"]
+    alpha = alphabet(spec, tier)
+    muts = [a for a in alpha if a[0] == "mut" and (a[1] or not quick)]
+    inputs = [a for a in alpha if a[0] in ("key", "mouse")]
+    first_of_node = {}
+    for m in muts:
+        first_of_node.setdefault(tuple(m[1]), m)
+    for (sa, fa), (sb, fb) in pairs:
+        ra, rb = ("render", sa, fa), ("render", sb, fb)
+        obs = [rb, ra] + ([("rows", sb, fb)] if typ == "flow" else [])
+        for d in drops:
+            g = ("gc", d)
+            for m in muts + inputs:
+                yield (ra, rb, g, m), obs
+            for m1 in muts:
+                seconds = [m1]
+                if not quick and first_of_node[tuple(m1[1])] != m1:
+                    seconds.append(first_of_node[tuple(m1[1])])
+                for m2 in seconds:
+                    yield (ra, m1, rb, g, m2), obs
+
+
 MAX_FAIL_PER_TREE = 6
 
 
@@ -1253,7 +1478,7 @@ def work(task):
     t0 = time.process_time()
     gc.freeze()  # gc.collect() steps then only look at objects created from here on (undone below)
     res = {
-        "idx": idx, "spec": spec, "mode": "full" if mode == "full" else "sample",
+        "idx": idx, "spec": spec, "mode": mode if mode in ("full", "gc") else "sample",
         "n": {"cached-equals-fresh": 0, "rows-cached-equals-fresh": 0, "handed-out-unchanged": 0},
         "nontrivial": {"cached-equals-fresh": 0, "rows-cached-equals-fresh": 0, "handed-out-unchanged": 0},
         "fail": {"cached-equals-fresh": [], "rows-cached-equals-fresh": [], "handed-out-unchanged": []},
@@ -1264,8 +1489,15 @@ def work(task):
     seen_sig = {}
     try:
         with _Guard():
-            for h in histories(spec, tier, hist_len, mode, seed):
-                r = evaluate(spec, h, tier)
+            if mode == "gc":
+                source = gc_family(spec, tier)
+            elif mode[0] == "gcsample":
+                gobs = gc_observations(spec, tier)
+                source = ((h, gobs) for h in gc_sampled(spec, tier, hist_len, mode[1], seed))
+            else:
+                source = ((h, None) for h in histories(spec, tier, hist_len, mode, seed))
+            for h, obs in source:
+                r = evaluate(spec, h, tier, obs)
                 for st, en in r["step_exc"]:
                     k = f"{spec_str(spec)}:{st}:{en}"
                     res["step_exc"][k] = res["step_exc"].get(k, 0) + 1
@@ -1285,7 +1517,7 @@ def work(task):
                         continue
                     res["nfail"][cl] += 1
                     if res["nfail"][cl] <= 12:
-                        mini = shrink(spec, h, cl, tier)
+                        mini = shrink(spec, h, cl, tier, obs)
                         sig = signature(spec, mini)
                     else:
                         mini, sig = None, "(not minimised)"
@@ -1295,7 +1527,7 @@ def work(task):
                         res["examples"].setdefault(g, {"tree": spec_str(spec), "minimal_history": [list(map(_j, st)) for st in mini]})
                     if mini is not None and seen_sig.get(g, 0) < 1 and len(res["fail"][cl]) < MAX_FAIL_PER_TREE:
                         seen_sig[g] = seen_sig.get(g, 0) + 1
-                        res["fail"][cl].append(_detail(spec, h, cl, r, mini, tier))
+                        res["fail"][cl].append(_detail(spec, h, cl, r, mini, tier, obs))
             if do_final:
                 res["final"] = finalized_cases(spec)
     finally:
@@ -1328,6 +1560,8 @@ def run(tier="quick", seed=0):
 
     def cost(t):  # rough size of a plan, only used to start the big ones first
         n = len(alphabet(t[1], t[2]))
+        if t[4] == "gc":
+            return n * (12 if t[2] == "quick" else 120)
         return n ** t[3] if t[4] == "full" else t[4][1] * 3
 
     order = sorted(tasks, key=cost, reverse=True)
@@ -1346,17 +1580,25 @@ def run(tier="quick", seed=0):
     if tier == "quick":
         scope = "all 12 leaves alone (histories <= 3 steps, exhaustive), all 204 root+leaf trees (<= 2 steps exhaustive; 100 seeded 3-step histories on one tree per root kind), 1 seeded root+middle+leaf tree per middle kind (<= 2 steps exhaustive)"
     else:
-        scope = "all 12 leaves alone (<= 3 steps exhaustive over the full alphabet, 3000 seeded 4-step), all 204 root+leaf trees (<= 2 steps full alphabet exhaustive; 3 steps over the reduced alphabet exhaustive on a set covering every root and leaf kind, 250 seeded on the others; 80 seeded 4-step), 150 seeded depth-2 trees (<= 2 exhaustive, 150 seeded 3-step) and 100 seeded depth-3 trees (<= 2 exhaustive, 100 seeded 4-step)"
+        scope = "all 12 leaves alone (<= 3 steps exhaustive over the full alphabet, 3000 seeded 4-step), all 204 root+leaf trees (<= 2 steps full alphabet exhaustive; 3 steps over the reduced alphabet exhaustive on a set covering every root and leaf kind, 250 seeded on the others; 80 seeded 4-step), 150 seeded depth-2 trees (<= 2 exhaustive, 150 seeded 3-step) and 100 seeded depth-3 trees (<= 2 exhaustive, 100 seeded 4-step); sampled-histories also: 80 seeded 8-step histories per root+leaf tree over the garbage-collection alphabet (renders incl. a vertical resize, 3 ways of dropping held canvases + gc.collect(), every mutator, keys, mouse)"
     bound = (
         f"{len(KINDS)} widget kinds ({len(LEAVES)} leaves, {len(INNER)} decorations/containers) in chain-shaped trees with fixed siblings, {ntrees} trees: {scope}; "
         "steps = render(2 sizes x focus) / rows / every public mutator of every node / keys and mouse at the root / drop held canvases + gc.collect(); "
+        "after the root observations of the first run (not in the gc-histories family), every still-cached canvas of a grammar-named descendant is compared with that descendant's render after CanvasCache.clear(); "
         f"each history observed at its end by {4 if tier == 'quick' else 5} renders (+{1 if tier == 'quick' else 2} rows for flow roots) in two runs (cache as-is / CanvasCache.clear() first)"
+    )
+    gc_bound = (
+        "garbage-collection family on " + ("every root+leaf tree and the depth-2 trees above" if tier == "quick" else "every leaf alone, every root+leaf tree (thorough family) and the seeded depth-2/3 trees above (quick family)")
+        + ": [render A, (edit1,) render B, drop held canvases + gc.collect(), edit2] observed by render B, render A (+rows at B for flow roots) in two runs; "
+        "A->B changes the root's cache key and keeps that of descendants: focus flip at one size, other width, vertical resize (box roots: (10,6)->(10,7)); "
+        + ("4 key pairs, drop = all but the latest canvas, edits = every mutator of every non-root node (+3 keys, 1 mouse press for the 4-step form), edit2 = edit1 again" if tier == "quick"
+           else "10 key pairs (7 for flow roots), drop in {all but the latest, all but the first, all}, edits = every mutator of every node (+5 keys, 3 mouse presses for the 4-step form), edit2 in {edit1 again, first mutator of the same node}")
     )
     checks = {}
     for cl in ("cached-equals-fresh", "rows-cached-equals-fresh", "handed-out-unchanged"):
-        for mode in ("full", "sample"):
-            name = f"{ID}/{cl}" + ("" if mode == "full" else "/sampled-histories")
-            c = Check(name, RULES[cl], mode == "full", bound)
+        for mode in ("full", "sample", "gc"):
+            name = f"{ID}/{cl}" + {"full": "", "sample": "/sampled-histories", "gc": "/gc-histories"}[mode]
+            c = Check(name, RULES[cl], mode != "sample", gc_bound if mode == "gc" else bound)
             c.t0 = t_start
             c.nontrivial = _Counted()
             c.groups = {}
@@ -1428,7 +1670,8 @@ def replay(check_name, case):
         spec = case["tree"]
         hist = [tup(st) for st in case.get("minimal_history") or case["history"]]
         tier = case.get("obs_tier", "thorough")
-        r = evaluate(spec, hist, tier)
+        obs = [tup(ob) for ob in case["observations"]] if case.get("observations") else None
+        r = evaluate(spec, hist, tier, obs)
         if r["trivial"]:
             return {"outcome": "not-reproduced", "detail": {"trivial": True}}
         if clause == "handed-out-unchanged":
@@ -1436,5 +1679,5 @@ def replay(check_name, case):
         else:
             bad = _first_diff(r["render" if clause == "cached-equals-fresh" else "rows"]) is not None
         if bad:
-            return {"outcome": "confirmed", "detail": _detail(spec, hist, clause, r, None, tier)}
+            return {"outcome": "confirmed", "detail": _detail(spec, hist, clause, r, None, tier, obs)}
         return {"outcome": "not-reproduced", "detail": {"history": [list(map(_j, st)) for st in hist]}}
